@@ -73,6 +73,9 @@ pub struct RunResult {
     pub hook_events: Vec<(String, usize, String)>,
 }
 
+/// progress callback (iterations so far) so that a watchdog can tell a long run from a hang
+pub static BEAT: std::sync::Mutex<Option<Box<dyn Fn(usize) + Send>>> = std::sync::Mutex::new(None);
+
 pub fn classify(msg: &str) -> &'static str {
     if msg.starts_with("deadlock;") {
         "deadlock"
@@ -219,6 +222,13 @@ pub fn run_program(prog: &Prog, cfg: &Cfg) -> RunResult {
             "end" => {
                 let log: Vec<Ev> = interp::LOG.with(|l| std::mem::take(&mut *l.borrow_mut()));
                 a.res.iters = iter;
+                if iter % 20000 == 0 {
+                    if let Ok(b) = BEAT.lock() {
+                        if let Some(f) = b.as_ref() {
+                            f(iter);
+                        }
+                    }
+                }
                 let key = outcome_key(&prog2, nthreads, &log);
                 a.pending = Some((log, key, path.to_string()));
             }
